@@ -37,6 +37,11 @@ type c20Shared struct {
 	ssigs   [][]byte              // Schnorr signatures by sprivs[i] over digests[i]
 	dsts    [][]byte              // domain separation tags: short, 255, 256 and two different oversize ones
 	opts    []*secec.ECDSAOptions // options objects shared by all goroutines (read-only operands)
+	// argument SLICES shared by all goroutines: lists for the multi-scalar routines with a
+	// zero scalar and an identity point in the middle (terms an implementation may want to
+	// move out of the way)
+	msmS []*Scalar
+	msmP []*Point
 }
 
 func buildShared(seed int64, batch int) *c20Shared {
@@ -74,6 +79,10 @@ func buildShared(seed int64, batch int) *c20Shared {
 			off += len(p)
 		}
 	}
+	defer func() {
+		s.msmS = []*Scalar{s.scalars[0], secp256k1.NewScalar(), s.scalars[1], s.scalars[2], secp256k1.NewScalarFromUint64(7), s.scalars[3]}
+		s.msmP = []*Point{s.points[0], s.points[1], secp256k1.NewIdentityPoint(), s.points[2], s.points[3], s.points[0]}
+	}()
 	s.opts = []*secec.ECDSAOptions{{}, {RejectMalleable: true}, {Encoding: secec.EncodingCompact}, {Hash: crypto.SHA256, SelfVerify: true}}
 	pool := knownPointPool(seed, 3)
 	for i := 0; i < 4; i++ {
@@ -88,7 +97,7 @@ func buildShared(seed int64, batch int) *c20Shared {
 
 // c20Call performs one read-only call on shared objects; obj identifies
 // the main shared object (for the overlap statistics).
-const c20Ops = 40
+const c20Ops = 41
 
 func c20Call(s *c20Shared, rng *gen.Rng, force int) (name string, obj int, out []byte) {
 	ki := rng.Intn(len(s.privs))
@@ -302,6 +311,13 @@ func c20Call(s *c20Shared, rng *gen.Rng, force int) (name string, obj int, out [
 		o := s.opts[2+rng.Intn(2)]
 		sig, err := k.Sign(secec.RFC6979SHA256(), s.digests[ki], o)
 		return "Sign(shared options object)", ki, append(append(sig, []byte(fmt.Sprint(err))...), byte(o.Hash), byte(o.Encoding))
+	case 40:
+		// the SAME argument slices from every goroutine
+		a := new(Point).MultiScalarMultVartime(s.msmS, s.msmP).UncompressedBytes()
+		b := new(Point).MultiScalarMult(s.msmS, s.msmP).UncompressedBytes()
+		k := 2 + rng.Intn(4)
+		c := new(Point).MultiScalarMultVartime(s.msmS[:k], s.msmP[:k]).CompressedBytes()
+		return "MultiScalarMult[Vartime](shared argument slices)", 100, append(append(a, b...), c...)
 	default:
 		nk, err := secec.NewPublicKeyFromPoint(s.points[pi])
 		if err != nil {
